@@ -650,6 +650,8 @@ pub(crate) fn allocate_registers(ops: &[Op]) -> Result<Vec<AllocatedAbstractOp>,
                     ));
                 }
                 try_count += 1;
+                #[cfg(feature = "fuellabs_sway_verif")]
+                crate::verif_hooks::regalloc::on_spill(try_count, &spills);
                 updated_ops = spill(&updated_ops_before_spill, &spills);
                 updated_ops_ref = &updated_ops;
             }
@@ -667,6 +669,9 @@ pub(crate) fn allocate_registers(ops: &[Op]) -> Result<Vec<AllocatedAbstractOp>,
             owning_span: op.owning_span.clone(),
         })
     }
+
+    #[cfg(feature = "fuellabs_sway_verif")]
+    crate::verif_hooks::regalloc::on_allocated(ops, &updated_ops, &pool, &buf, try_count);
 
     Ok(buf)
 }
@@ -949,6 +954,40 @@ fn spill_offsets(
         .enumerate()
         .map(|(i, reg)| (reg.clone(), (i * 8) as u32 + locals_size_bytes))
         .collect()
+}
+
+/// Crate-visible handles on this module's private items for `crate::verif_hooks::regalloc`.
+#[cfg(feature = "fuellabs_sway_verif")]
+pub(crate) mod verif_access {
+    use super::*;
+
+    pub(crate) use crate::asm_generation::fuel::analyses::liveness_analysis;
+
+    pub(crate) fn assign_registers(
+        interference_graph: &InterferenceGraph,
+        stack: &mut Vec<NodeIndex>,
+    ) -> Result<RegisterPool, CompileError> {
+        super::assign_registers(interference_graph, stack)
+    }
+
+    pub(crate) fn spill(ops: &[Op], spills: &FxHashSet<VirtualRegister>) -> Vec<Op> {
+        super::spill(ops, spills)
+    }
+
+    pub(crate) fn spill_offsets(
+        spills: &FxHashSet<VirtualRegister>,
+        locals_size_bytes: u32,
+    ) -> FxHashMap<VirtualRegister, u32> {
+        super::spill_offsets(spills, locals_size_bytes)
+    }
+
+    /// Every (virtual register, pool register) pair of the pool's `used_by` sets.
+    pub(crate) fn pool_assignment(pool: &RegisterPool) -> Vec<(VirtualRegister, AllocatedRegister)> {
+        pool.registers
+            .iter()
+            .flat_map(|s| s.used_by.iter().map(|v| (v.clone(), s.reg.clone())))
+            .collect()
+    }
 }
 
 #[cfg(test)]
